@@ -212,6 +212,19 @@ def run(ctx):
             if o.kind == "param" and any(d.kind == "param" and d.ref == o.ref for d in doc):
                 ok = True
                 why = "both fields copied from one existing Root"
+        if not ok:
+            # loop form of get_injections: `let Ok(Some(tree)) = source.parse_tree_sitter(..)` with source = self.doc.get_source(), doc = self.doc.clone_with_lang(..)
+            T2 = TRANSPARENT | {"map", "clone_with_lang", "get_source"}
+            for o in inner:
+                if o.kind == "call" and o.ref.name.startswith("parse") and o.ref.args:
+                    a = {(rf.id, r.kind, r.ref if r.kind != "call" else id(r.ref), tuple(field_path(r.proj))[:1]) for rf, r in ultimate_roots(prog, f, o.ref.args[0], T2)}
+                    b = set()
+                    for d in doc:
+                        if d.kind == "call" and d.ref.args:
+                            b |= {(rf.id, r.kind, r.ref if r.kind != "call" else id(r.ref), tuple(field_path(r.proj))[:1]) for rf, r in ultimate_roots(prog, f, d.ref.args[0], T2)}
+                    if a & b:
+                        ok = True
+                        why = "tree = %s over the source of the same doc the new Root's doc is cloned from" % o.ref.best
         if not ok and f.is_closure:
             # `tree.map(|t| Root { inner: t, doc })`: the tree is the closure's argument; look at what the
             # consuming adaptor call is applied to in the parent function
@@ -251,10 +264,15 @@ def run(ctx):
         stored = False
         for bi in do_edit.reachable_from(pc.bb):
             for s in do_edit.blocks[bi]["s"]:
-                if s[0] == "A" and "inner" in field_path(s[1][1]) and s[2][0] == "use":
-                    src = deep_roots(prog, do_edit, s[2][1])
-                    if any(r.kind == "call" and r.ref is pc for r in src):
-                        stored = True
+                if s[0] == "A" and s[2][0] == "use":
+                    direct = "inner" in field_path(s[1][1])
+                    # through a `&mut` alias: `let Self { inner: tree, .. } = self; *tree = reparsed;`
+                    alias = (not direct) and "*" in s[1][1] and any(
+                        r.kind == "param" and r.ref == 1 and "inner" in field_path(r.proj) for r in do_edit.trace_operand(["c", [s[1][0], []]]))
+                    if direct or alias:
+                        src = deep_roots(prog, do_edit, s[2][1])
+                        if any(r.kind == "call" and r.ref is pc for r in src):
+                            stored = True
         # the re-parse is unconditional: once perform_edit changed text and tree, no path reaches a return without parsing
         # (an edit "that cannot change the structure" — blanks for blanks — still can: ASI in JS, layout in Python)
         from ..query import path_avoiding
